@@ -8,6 +8,9 @@ import run
 from concurrent.futures import ThreadPoolExecutor
 
 BENIGN = [
+    ("zone_build", "crates/dns-types/src/zones/types.rs", "            self.records\n                .insert(relative_domain, rtype_with_data, self.actual_ttl(ttl));", "            let raised = self.actual_ttl(ttl);\n            self.records\n                .insert(relative_domain, rtype_with_data, raised);", "introduced a local"),
+    ("zone_build", "crates/dns-types/src/zones/types.rs", "            if let Some(entries) = self.this.get_mut(&rtype) {\n                if entries.iter().any(|e| e == &new) {\n                    return;\n                }\n\n                entries.push(new);", "            if let Some(entries) = self.this.get_mut(&rtype) {\n                if !entries.iter().any(|e| e == &new) {\n                    entries.push(new);\n                }", "early return as a negated condition"),
+    ("zone_build", "crates/dns-types/src/zones/types.rs", "            if let Some(entries) = self.this.get_mut(&rtype) {\n                if entries.iter().any(|e| e == &new) {", "            if let Some(entries) = self.this.get_mut(&rtype) {\n                if entries.contains(&new) {", "any(==) as contains"),
     ("local", "crates/dns-resolver/src/local.rs", "    let mut rrs_from_zone = Vec::new();", "    let mut rrs_from_zone = Vec::with_capacity(4);", "capacity hint"),
     ("local", "crates/dns-resolver/src/local.rs", "        tracing::debug!(\"hit recursion limit\");", "        tracing::warn!(\"hit recursion limit\");", "log level"),
     ("recursive", "crates/dns-resolver/src/recursive.rs", "    let mut candidates = None;\n    let mut combined_rrs = Vec::new();", "    let mut combined_rrs = Vec::new();\n    let mut candidates = None;", "swap two independent lets"),
@@ -50,10 +53,9 @@ def one(b):
     src = open(os.path.join("/repo", rel)).read()
     if old not in src:
         return f"{unit}: {what}: pattern absent"
-    r = run.run_unit(unit, overlay={rel: src.replace(old, new, 1)}, tag="benign", multiple_errors=5)
+    r = run.run_unit(unit, overlay={rel: src.replace(old, new, 1)}, tag="benign%d" % BENIGN.index(b), multiple_errors=5)
     if r.status != "ok":
         return f"{unit}: {what}: UNDECIDED ({r.reason[:80]})"
-    fails = [d for d in r.diags if d.is_failure()] if hasattr(r, "diags") else []
     return f"{unit}: {what}: " + ("ok" if r.errors == 0 else f"FALSE ALARM {r.errors} errors")
 
 with ThreadPoolExecutor(4) as ex:
